@@ -1495,3 +1495,4 @@ mod tests {
         });
     }
 }
+#[cfg(rjrssync_verif)] pub(crate) mod verif_hooks { include!(concat!(env!("RJRSSYNC_VERIF_HARNESS"), "/hooks_boss_frontend.rs")); }
